@@ -247,6 +247,12 @@ void UnionDatatypeValidator::checkContent(const XMLCh*             const content
         // report an error only in case content is not valid against all member datatypes.
         //
         bool memTypeValid = false;
+
+        // no validating member type unless one of the members accepts the
+        // content (context is null during schema construction)
+        if (context)
+            context->setValidatingMemberType(0);
+
         for ( unsigned int i = 0; i < fMemberTypeValidators->size(); ++i )
         {
             if ( memTypeValid )
